@@ -139,7 +139,7 @@ class MapFiller(Visitor):
         sexpr = [
             "macro",
             macro.name,
-            *(param.name for param in macro.parameters),
+            *macro.parameters,
             gate_block,
         ]
         return sexpr
